@@ -26,7 +26,7 @@ PLAT_POOL = ["linux_x86_64", "manylinux_2_17_x86_64", "manylinux2014_x86_64", "m
              "any", "win_amd64", "Win32", "LINUX_X86_64", "plat1", "plat2", "plat_3", "musllinux_1_1_x86_64",
              "ios_15_0_arm64_iphoneos", "Plat1", "p", "", "a-b", "x y"]
 IMPLS = ["cpython"] * 5 + ["pypy", "pypy", "python", "ironpython", "jython", "graalpy", "mything", "CPython", ""]
-EXT_SUFFIXES = [".cpython-312-x86_64-linux-gnu.so", ".cpython-313t-x86_64-linux-gnu.so", ".cpython-310-darwin.so",
+EXT_SUFFIXES = [".pyston-23-x86_64-linux-gnu.so", ".rustpython-07-wasm32.so", ".cpython-312-x86_64-linux-gnu.so", ".cpython-313t-x86_64-linux-gnu.so", ".cpython-310-darwin.so",
                 ".cp310-win_amd64.pyd", ".cp313t-win_amd64.pyd", ".pyd", ".so", ".pypy38-pp73-x86_64-linux-gnu.so",
                 ".pypy39-pp73-darwin.so", ".graalpy-38-native-x86_64-darwin.dylib", ".graalpy-38.so",
                 ".pyston-23-x86_64-linux-gnu.so", "..so", ".cpython.so", "", "so", None, 3, ".abi3.so",
@@ -416,6 +416,8 @@ class C15(Prop):
                     else:
                         abis = abis + [rng.choice(["ABI3", "None", "NONE"])]
                 yield ("no_repeats", {"which": which, "ver": ver, "abis": abis, "plats": plats, "interp": interp})
+            elif r < 0.85:
+                yield ("generic_default_abi", {"probe": gen_probe(rng), "interp": rng.choice(["pyston38", "pp310", "rustpython312", "xx1"])})
             elif r < 0.9:
                 yield ("sys_is_concat", {"probe": gen_probe(rng, consistent=True)})
             else:
@@ -529,6 +531,24 @@ class C15(Prop):
                 raise T.OutOfDomain("no platform detected")
             if got != want:
                 return False, "sys_tags is not interpreter-specific ++ compatible: " + first_diff(got, want)
+            return True, ""
+        if law == "generic_default_abi":
+            # generic_tags with the ABI left to the interpreter's EXT_SUFFIX: whatever the suffix, each yielded tag is a
+            # well-formed <interp>-<abi>-<plat> triple (no '-' or '.' inside a component) and reads back through parse_tag
+            probe = inp["probe"]
+            with T.probes(probe):
+                try:
+                    ts = list(tags.generic_tags(interpreter=inp["interp"], abis=None, platforms=["plat_a", "plat_b"]))
+                except Exception:
+                    raise T.OutOfDomain("generic_tags raises under this configuration")
+            for t in ts:
+                for part in (t.interpreter, t.abi, t.platform):
+                    if "-" in part or "." in part or not part:
+                        return False, f"EXT_SUFFIX={probe['config'].get('EXT_SUFFIX')!r}: tag {str(t)!r} has the malformed component {part!r}"
+                if tags.parse_tag(str(t)) != frozenset({t}):
+                    return False, f"EXT_SUFFIX={probe['config'].get('EXT_SUFFIX')!r}: parse_tag({str(t)!r}) != {{t}}"
+            if not ts or (ts[-1].abi != "none"):
+                return False, f"generic_tags does not end with the none ABI: {[str(t) for t in ts]}"
             return True, ""
         if law == "default_abis":
             probe, ver = inp["probe"], tuple(inp["ver"])
